@@ -5,16 +5,16 @@ Import ListNotations.
 Open Scope Z_scope.
 
 (* T16.inv — the cache's accounting, at the boundary of EVERY operation of EVERY history:
-   any contents type and size functions (cmem <= clen), any prefix-free key set K (flat and nested
+   any contents type and size functions (0 <= cmem; the in-memory size may exceed the serialised length and the limit), any prefix-free key set K (flat and nested
    paths), any directory tree d0 found at opening, any limits (0 = default), any clock readings, any
    number of sets / gets / gets of never-set keys / unloads / reopens with new limits / oversized values.
      current_memory_usage = sum of the entries' bytes, 0 <= it <= max_memory, no entry is left writing,
      every entry's future holds exactly the file's contents, the LRU heap has one item per entry. *)
 Theorem C16_accounting_invariant :
-  forall (C : Type) (clen cmem : C -> Z) (dirsize : Z), (forall c, 0 <= cmem c <= clen c) ->
+  forall (C : Type) (clen cmem : C -> Z) (dirsize : Z), (forall c, 0 <= cmem c) ->
   forall K, prefix_free K -> forall d0 mx ops, disk_ok C K d0 -> 0 <= mx -> Forall (op_ok C K) ops ->
-  accounting C cmem (fst (kvs_run C clen cmem dirsize kvs_get_catches_fnf (open_cache C d0 mx) ops)).
-Proof. exact (accounting_flag kvs_get_catches_fnf eq_refl). Qed.
+  accounting C cmem (fst (kvs_run C clen cmem dirsize ufm_oversize_uncached ufm_uncached_purges kvs_get_catches_fnf (open_cache C d0 mx) ops)).
+Proof. exact (accounting_flag ufm_oversize_uncached ufm_uncached_purges kvs_get_catches_fnf eq_refl eq_refl eq_refl). Qed.
 Print Assumptions C16_accounting_invariant.
 
 (* T16.refine — the key-value store IS a dictionary (with capacity refusals): over the same histories the
@@ -22,21 +22,21 @@ Print Assumptions C16_accounting_invariant.
    a get returns the latest set, a never-set key reads :undefined, other keys are unaffected, reopening
    changes nothing but the limit, an oversized value is refused with MemoryError and changes nothing. *)
 Theorem C16_refines_dictionary :
-  forall (C : Type) (clen cmem : C -> Z) (dirsize : Z), (forall c, 0 <= cmem c <= clen c) ->
+  forall (C : Type) (clen cmem : C -> Z) (dirsize : Z), (forall c, 0 <= cmem c) ->
   forall K, prefix_free K -> forall d0 m0 mx ops, disk_ok C K d0 -> 0 <= mx ->
   (forall k, In k K -> assoc m0 k = file_of C (lookup C d0 k)) -> Forall (op_ok C K) ops ->
-  snd (kvs_run C clen cmem dirsize kvs_get_catches_fnf (open_cache C d0 mx) ops)
+  snd (kvs_run C clen cmem dirsize ufm_oversize_uncached ufm_uncached_purges kvs_get_catches_fnf (open_cache C d0 mx) ops)
   = snd (spec_run C clen (mkS C m0 (norm_max mx)) ops).
-Proof. exact (refines_flag kvs_get_catches_fnf eq_refl). Qed.
+Proof. exact (refines_flag ufm_oversize_uncached ufm_uncached_purges kvs_get_catches_fnf eq_refl eq_refl eq_refl). Qed.
 Print Assumptions C16_refines_dictionary.
 
 (* the same from an empty directory *)
 Theorem C16_fresh_store_is_dictionary :
-  forall (C : Type) (clen cmem : C -> Z) (dirsize : Z), (forall c, 0 <= cmem c <= clen c) ->
+  forall (C : Type) (clen cmem : C -> Z) (dirsize : Z), (forall c, 0 <= cmem c) ->
   forall K, prefix_free K -> forall mx ops, 0 <= mx -> Forall (op_ok C K) ops ->
-  snd (kvs_run C clen cmem dirsize kvs_get_catches_fnf (open_cache C [] mx) ops)
+  snd (kvs_run C clen cmem dirsize ufm_oversize_uncached ufm_uncached_purges kvs_get_catches_fnf (open_cache C [] mx) ops)
   = snd (spec_run C clen (mkS C [] (norm_max mx)) ops).
-Proof. exact (fresh_store_flag kvs_get_catches_fnf eq_refl). Qed.
+Proof. exact (fresh_store_flag ufm_oversize_uncached ufm_uncached_purges kvs_get_catches_fnf eq_refl eq_refl eq_refl). Qed.
 Print Assumptions C16_fresh_store_is_dictionary.
 
 Theorem C16_default_limit : default_max = default_max_src.
@@ -59,13 +59,13 @@ Print Assumptions C16_table_merge_sorted_unique.
 (* the table store on the cache: in any reachable state, a set stores merge(stored, new) under that key
    and leaves every other key's table alone; a get returns the stored table or :undefined *)
 Theorem C16_table_store_set :
-  forall (flen fmem : frame -> Z) (dirsize : Z), (forall f, 0 <= fmem f <= flen f) ->
+  forall (flen fmem : frame -> Z) (dirsize : Z), (forall f, 0 <= fmem f) ->
   forall K, prefix_free K -> forall (s : cache frame) n new t1 t2 ch1 ch2,
   Inv frame fmem K s -> In n K ->
   let old := match stored s n with Some f => f | None => [] end in
   (match stored s n with Some f => flen f <= c_max frame s | None => True end) ->
   flen (merge_frames old new) <= c_max frame s ->
-  exists s', tbl_set flen fmem dirsize s n new t1 t2 ch1 ch2 = (s', TSet) /\
+  exists s', tbl_set flen fmem dirsize true true s n new t1 t2 ch1 ch2 = (s', TSet) /\
              Inv frame fmem K s' /\ c_max frame s' = c_max frame s /\
              stored s' n = Some (merge_frames old new) /\
              forall k, In k K -> k <> n -> stored s' k = stored s k.
@@ -73,29 +73,52 @@ Proof. exact tbl_set_spec. Qed.
 Print Assumptions C16_table_store_set.
 
 Theorem C16_table_store_get :
-  forall (flen fmem : frame -> Z) (dirsize : Z), (forall f, 0 <= fmem f <= flen f) ->
+  forall (flen fmem : frame -> Z) (dirsize : Z), (forall f, 0 <= fmem f) ->
   forall K, forall (s : cache frame) n t ch,
   Inv frame fmem K s -> In n K ->
   (match stored s n with Some f => flen f <= c_max frame s | None => True end) ->
-  exists s', tbl_get flen fmem dirsize s n t ch = (s', match stored s n with Some f => TVal f | None => TUndef end) /\
+  exists s', tbl_get flen fmem dirsize true true s n t ch = (s', match stored s n with Some f => TVal f | None => TUndef end) /\
              Inv frame fmem K s' /\ c_max frame s' = c_max frame s /\ forall k, stored s' k = stored s k.
 Proof. exact tbl_get_spec. Qed.
 Print Assumptions C16_table_store_get.
+
+(* several store objects opened one after another on the same directory (any number, any limits): the lists of
+   results of all of them equal those of ONE dictionary carried from object to object *)
+Theorem C16_successive_stores_share_one_dictionary :
+  forall (C : Type) (clen cmem : C -> Z) (dirsize : Z), (forall c, 0 <= cmem c) ->
+  forall K, prefix_free K -> forall ss d0 m0, disk_ok C K d0 ->
+  (forall k, In k K -> assoc m0 k = file_of C (lookup C d0 k)) ->
+  Forall (fun s => 0 <= fst s /\ Forall (op_ok C K) (snd s)) ss ->
+  snd (sessions_run C clen cmem dirsize ufm_oversize_uncached ufm_uncached_purges kvs_get_catches_fnf d0 ss)
+  = snd (spec_sessions C clen m0 ss).
+Proof. exact (sessions_flag ufm_oversize_uncached ufm_uncached_purges kvs_get_catches_fnf eq_refl eq_refl eq_refl). Qed.
+Print Assumptions C16_successive_stores_share_one_dictionary.
+
+(* T16.table over histories: for every sequence of table sets / gets / unloads / reopens (any frames, any size
+   functions, any limits, any eviction choices) the table store answers like a dictionary whose set stores the
+   documented merge of the stored table with the new one (MemoryError refusals when a pickle exceeds the limit) *)
+Theorem C16_table_store_refines_dictionary :
+  forall (flen fmem : frame -> Z) (dirsize : Z), (forall f, 0 <= fmem f) ->
+  forall K, prefix_free K -> forall mx ops, 0 <= mx -> Forall (top_ok K) ops ->
+  snd (tbl_run flen fmem dirsize ufm_oversize_uncached ufm_uncached_purges (open_cache frame [] mx) ops)
+  = snd (tspec_run flen (mkS frame [] (norm_max mx)) ops).
+Proof. exact (table_flag ufm_oversize_uncached ufm_uncached_purges eq_refl eq_refl). Qed.
+Print Assumptions C16_table_store_refines_dictionary.
 
 (* ---- the full statement (no restriction on keys or sizes) and why it is false for the code as written ---- *)
 Definition zid (z : Z) : Z := z.
 Definition C16_full_statement : Prop :=
   forall mx ops, 0 <= mx ->
-    snd (kvs_run Z zid zid 4096 true (open_cache Z [] mx) ops) = snd (spec_run Z zid (mkS Z [] (norm_max mx)) ops) /\
-    accounting Z zid (fst (kvs_run Z zid zid 4096 true (open_cache Z [] mx) ops)).
+    snd (kvs_run Z zid zid 4096 true true true (open_cache Z [] mx) ops) = snd (spec_run Z zid (mkS Z [] (norm_max mx)) ops) /\
+    accounting Z zid (fst (kvs_run Z zid zid 4096 true true true (open_cache Z [] mx) ops)).
 
 (* K1 (known finding C16-prefix-keys): keys "a/x" and "a".  After set a/x, the never-set key a raises
    IsADirectoryError instead of :undefined, a set of a fails, and current_memory_usage is negative. *)
 Definition prefix_witness : list (op Z) := [OSet [1; 2] 5 1 []; OGet [1] 2 []; OSet [1] 5 3 []].
 Theorem C16_prefix_refuted :
-  snd (kvs_run Z zid zid 4096 true (open_cache Z [] 0) prefix_witness) = [RSet; RErr IsADirectory; RErr IsADirectory] /\
+  snd (kvs_run Z zid zid 4096 true true true (open_cache Z [] 0) prefix_witness) = [RSet; RErr IsADirectory; RErr IsADirectory] /\
   snd (spec_run Z zid (mkS Z [] (norm_max 0)) prefix_witness) = [RSet; RUndef; RSet] /\
-  c_mem Z (fst (kvs_run Z zid zid 4096 true (open_cache Z [] 0) prefix_witness)) = -4091.
+  c_mem Z (fst (kvs_run Z zid zid 4096 true true true (open_cache Z [] 0) prefix_witness)) = -4091.
 Proof. vm_compute. repeat split; reflexivity. Qed.
 
 Theorem C16_full_statement_refuted : ~ C16_full_statement.
@@ -105,19 +128,28 @@ Qed.
 
 (* K2 (fixed by f420351): without the FileNotFoundError handler a never-set key raises *)
 Theorem C16_missing_refuted_without_handler :
-  snd (kvs_run Z zid zid 4096 false (open_cache Z [] 0) [OGet [1] 1 []]) = [RErr FileNotFound] /\
+  snd (kvs_run Z zid zid 4096 true true false (open_cache Z [] 0) [OGet [1] 1 []]) = [RErr FileNotFound] /\
   snd (spec_run Z zid (mkS Z [] (norm_max 0)) [OGet [1] 1 []]) = [RUndef].
 Proof. vm_compute. split; reflexivity. Qed.
 
-(* K3 (known finding C16-table-mem-over-limit): contents whose in-memory size exceeds the limit while the
-   serialised length fits (possible for DataFrames, not for the byte cache): the worker's assertion fails
-   after the file was written, the entry stays `writing` for ever and every later get/set of the key fails. *)
+(* K3 (fixed by d346f94): contents whose in-memory size exceeds the limit while the serialised length fits
+   (possible for DataFrames).  Without the guard the worker's assertion fails after the file was written, the entry
+   stays `writing` for ever and every later get/set of the key fails; with it the value is stored and served uncached. *)
 Definition lenmem := (Z * Z)%type.
 Definition mem_witness : list (op lenmem) := [OSet [1] (10, 50) 1 []; OGet [1] 2 []; OSet [1] (10, 5) 3 []].
-Theorem C16_mem_over_limit_refuted :
-  snd (kvs_run lenmem fst snd 4096 true (open_cache lenmem [] 20) mem_witness)
+Theorem C16_mem_over_limit_refuted_without_guard :
+  snd (kvs_run lenmem fst snd 4096 false false true (open_cache lenmem [] 20) mem_witness)
     = [RErr AssertionErr; RErr AssertionErr; RErr AssertionErr] /\
+  snd (kvs_run lenmem fst snd 4096 true true true (open_cache lenmem [] 20) mem_witness) = [RSet; RVal (10, 50); RSet] /\
   snd (spec_run lenmem fst (mkS lenmem [] 20) mem_witness) = [RSet; RVal (10, 50); RSet].
+Proof. vm_compute. repeat split; reflexivity. Qed.
+
+(* the not-cached branch must also drop the access-time item: otherwise a stale item is popped later (KeyError) *)
+Definition stale_witness : list (op lenmem) :=
+  [OSet [1] (5, 5) 1 []; OSet [2] (5, 5) 2 []; OSet [1] (5, 50) 3 []; OSet [3] (8, 8) 4 [[1]]].
+Theorem C16_stale_item_refuted_without_purge :
+  snd (kvs_run lenmem fst snd 4096 true false true (open_cache lenmem [] 12) stale_witness) = [RSet; RSet; RSet; RErr KeyErr] /\
+  snd (kvs_run lenmem fst snd 4096 true true true (open_cache lenmem [] 12) stale_witness) = [RSet; RSet; RSet; RSet].
 Proof. vm_compute. split; reflexivity. Qed.
 
 (* ---- non-vacuity: a concrete history with nested keys, evictions, unload, reopen, an oversized value ---- *)
@@ -128,9 +160,9 @@ Definition ex_ops : list (op Z) :=
 Example C16_example_hypotheses : prefix_free ex_K /\ Forall (op_ok Z ex_K) ex_ops.
 Proof. split; [apply prefix_freeb_ok | apply op_okb_ok]; vm_compute; reflexivity. Qed.
 Example C16_example_run :
-  snd (kvs_run Z zid zid 4096 true (open_cache Z [] 12) ex_ops)
+  snd (kvs_run Z zid zid 4096 true true true (open_cache Z [] 12) ex_ops)
   = [RSet; RSet; RVal 6; RSet; RUndef; RErr MemoryErr; RNone; RNone; RVal 5; RVal 7; RVal 6] /\
-  map (fun e => fst e) (c_entries Z (fst (kvs_run Z zid zid 4096 true (open_cache Z [] 12) ex_ops))) = [[1]].
+  map (fun e => fst e) (c_entries Z (fst (kvs_run Z zid zid 4096 true true true (open_cache Z [] 12) ex_ops))) = [[1]].
 Proof. vm_compute. split; reflexivity. Qed.
 Example C16_example_merge :
   merge_frames [(1, 10); (3, 30); (5, 50)] [(5, 51); (2, 20); (5, 52); (1, 11)] = [(1, 10); (2, 20); (3, 30); (5, 50)].
